@@ -1,26 +1,38 @@
 """C26 Service cache is bounded, fresh and single-flight.
 
-Decides from the syntax tree / CFG of gear/gear/time_limited_max_size_cache.py and gear/gear/auth.py (nothing is run):
-  R1 bounded   every `_put` in lookup is followed, atomically and on every path, by the capacity test and (when over capacity) an eviction;
-               `_over_capacity` is true whenever more than num_slots keys are held; `_evict_oldest` always removes one key;
-               `_put` / `_remove` update the three maps together and in the order the SortedSet key function (reads _expiry_time) requires;
-               no other method mutates the maps
+Decides from the syntax tree / CFG of gear/gear/time_limited_max_size_cache.py, gear/gear/auth.py and the JAR-cache site in
+batch/front_end.py (nothing is run).  The class is analysed under the constructor options the two sites pass (constant propagation of
+`self.<option>` into the methods, branches decided by the constants pruned); options that are not plain constants stay symbolic, i.e.
+both branches are analysed.  `lookup` is analysed with its same-class helpers inlined; a coroutine that lookup registers as the shared
+task (`self._futures[k] = asyncio.create_task(self.X(k))`) "runs later as a task" and is analysed as a second root for the insertion /
+capacity / value obligations, while the registration frame keeps the deregistration obligation.
+  R1 bounded   every `_put` (in lookup or in the task body) is followed, atomically and on every path, by the capacity test and (when over
+               capacity) an eviction; `_over_capacity` is true whenever more than num_slots keys are held; `_evict_oldest` always removes one
+               key; `_put` / `_remove` update the three maps together and in the order the SortedSet key function (reads _expiry_time)
+               requires; no other method mutates the maps; the maps are per-instance (created in __init__)
   R2 fresh     expiry = monotonic clock + lifetime_ns; the cached value is returned only after, atomically, the expiry of the same key
-               was compared with the *same* clock and the expired entry removed
+               was compared with the *same* clock and the expired entry removed; every value returned by lookup / stored by `_put` is the
+               result of the awaited load (of this call or of the shared task) -- reaching definitions over all returns and `_put`s: a
+               value read from `_cache` and carried in a local across the expiry removal or a suspension, a cached value re-`_put` with
+               a fresh lifetime, or an exception object, is not
   R3 single    the load task is registered with no suspension point after the `k in self._futures` test (absent-edge), `self.load` is
-               called only there, a lookup that finds a registered task starts no load, and the registration is removed on every exit
-               (normal, error, cancellation) of the loader
+               called only there (or awaited inside the registered task body), a lookup that finds a registered task starts no load, and
+               the registration is removed on every exit (normal, error, cancellation) of the REGISTERING frame or by a done-callback
+               attached before any suspension; a removal that lives only inside the registered task's own body does not run when the
+               task is cancelled before its first step (possible whenever some await of the shared task is unshielded)
   R4 isolation every `await` of a task read from the shared `_futures` map goes through asyncio.shield: otherwise cancelling one
                caller cancels the shared task and the other callers fail although neither their load failed nor they were cancelled
-  R5 use site  gear/auth.py builds the cache with positive constant lifetime / capacity and only ever calls `.lookup` on it
+  R5 use site  gear/auth.py (session cache) and batch/front_end.py (JAR cache) build the cache with positive constant lifetime /
+               capacity; auth.py only ever calls `.lookup` on it; constructor options are resolved per site
 Does not decide: which entry is evicted (any one suffices for the bound), behaviour during shutdown(), the loader's own errors.
 """
 from __future__ import annotations
 
 import ast
-from typing import Dict, List, Optional, Tuple
+from typing import Any, Dict, List, Optional, Set, Tuple
 
 from engines import asyncfacts as af
+from engines import c2426facts as cf
 from engines import inline
 from engines import pyfacts as pf
 from engines.common import AnalysisError, Ctx
@@ -29,21 +41,148 @@ META = dict(
     category='other',
     text='Structural necessary conditions decided on the CFG: must-pass-through from each insertion to the capacity test/eviction with '
          'await-atomicity, table evaluation of the capacity and expiry comparisons over the order relation, writer/writer agreement of the three '
-         'maps and of the clock used by writer and reader, single-flight registration atomicity and removal on every exit (incl. the set of '
-         'finally/except blocks that run on CancelledError), and a syntactic closure over every await of a shared task.  Not a proof over schedules.',
+         'maps and of the clock used by writer and reader, reaching-definition provenance of every returned / stored value, single-flight '
+         'registration atomicity and removal on every exit of the registering frame (incl. the set of finally/except blocks that run on '
+         'CancelledError, done-callbacks, and the never-started-task case for removals inside the task body), a syntactic closure over every '
+         'await of a shared task, constant propagation of the constructor options used at the session / JAR sites.  Not a proof over schedules.',
     note='Trusted: CPython ast; engines/pyfacts CFG; asyncio switches only at await; awaiting a Task from a cancelled coroutine cancels that Task '
-         'unless wrapped in asyncio.shield. Not decided: eviction policy, shutdown().',
-    technique='static analysis: CFG must-pass/dominance + await-atomicity + cancellation-exit analysis + finite truth tables',
+         'unless wrapped in asyncio.shield; a Task cancelled before its first step never runs its body. Not decided: eviction policy, shutdown().',
+    technique='static analysis: CFG must-pass/dominance + await-atomicity + cancellation-exit analysis + reaching definitions + constant propagation + finite truth tables',
     design_ref='DESIGN.md §3 C26, §4 F4',
 )
 
 F = 'gear/gear/time_limited_max_size_cache.py'
 AU = 'gear/gear/auth.py'
+JAR = 'batch/batch/front_end/front_end.py'
 CLS = 'TimeLimitedMaxSizeCache'
 MAPS = ('self._cache', 'self._expiry_time', 'self._keys_by_expiry')
 FUT = 'self._futures'
 CLOCK_OK = ('time.monotonic_ns',)
 PRIMS = ('_put', '_remove', '_evict_oldest', '_over_capacity', 'shutdown', '__init__')
+BASE_PARAMS = ['load', 'lifetime_ns', 'num_slots', 'cache_name']
+TASK_MAKERS = ('asyncio.create_task', 'asyncio.ensure_future')
+
+
+class _Sfx:
+    """ctx proxy that marks the constructs of a second option configuration"""
+
+    def __init__(self, ctx: Ctx, sfx: str):
+        self._ctx, self._sfx = ctx, sfx
+
+    def __getattr__(self, name: str) -> Any:
+        return getattr(self._ctx, name)
+
+    def ok(self, rule, construct, detail=None, nontrivial=True):
+        return self._ctx.ok(rule, construct + self._sfx, detail, nontrivial)
+
+    def bad(self, rule, construct, message, file='', line=0, extra=None):
+        if any(f.rule == rule and f.construct == construct for f in self._ctx.findings):
+            return None  # the same construct already fails under the first configuration: one report
+        return self._ctx.bad(rule, construct + self._sfx, message + self._sfx, file, line, extra)
+
+    def check(self, cond, rule, construct, message, file='', line=0, detail=None, extra=None):
+        if cond:
+            self.ok(rule, construct, detail)
+        else:
+            self.bad(rule, construct, message, file, line, extra)
+        return bool(cond)
+
+
+class Body:
+    """A coroutine method registered by lookup as the shared task."""
+
+    def __init__(self, name: str, m: pf.Module, fn: pf.FuncDef, il):
+        self.name, self.m, self.fn, self.il = name, m, fn, il
+        self.cfg = pf.cfg(fn)
+        self.k = fn.args.args[1].arg
+
+
+class View:
+    def __init__(self) -> None:
+        self.m: pf.Module = None  # type: ignore[assignment]
+        self.cls: ast.ClassDef = None  # type: ignore[assignment]
+        self.mi: pf.Module = None  # type: ignore[assignment]
+        self.clsi: ast.ClassDef = None  # type: ignore[assignment]
+        self.il: Any = None
+        self.lk: pf.FuncDef = None  # type: ignore[assignment]
+        self.cfg: pf.CFG = None  # type: ignore[assignment]
+        self.k = 'k'
+        self.bodies: Dict[str, Body] = {}
+        self.absorbed: Set[str] = set()
+        self.deferred: List[str] = []
+
+    def roots(self) -> List[Tuple[str, pf.Module, pf.FuncDef, pf.CFG, str]]:
+        return [('lookup', self.mi, self.lk, self.cfg, self.k)] + [(b.name, b.m, b.fn, b.cfg, b.k) for b in self.bodies.values()]
+
+
+def _is_fut_store(t: ast.AST) -> bool:
+    return isinstance(t, ast.Subscript) and pf.nsrc(t.value) == FUT
+
+
+def _regs(cfg: pf.CFG) -> List[pf.Node]:
+    return af.stmt_nodes(cfg, lambda n: n.kind == 'stmt' and isinstance(n.ast, ast.Assign) and any(_is_fut_store(t) for t in n.ast.targets))
+
+
+def _task_call(fn: pf.FuncDef, G: pf.Node) -> Optional[ast.Call]:
+    """the coroutine call C in `self._futures[k] = asyncio.create_task(C)` (the task may go through a single-definition local)"""
+    val = pf.resolve_expr(fn, G.ast.value)  # type: ignore[union-attr]
+    if isinstance(val, ast.Call) and pf.dotted(val.func) in TASK_MAKERS and len(val.args) == 1 and isinstance(val.args[0], ast.Call):
+        return val.args[0]
+    return None
+
+
+def _self_refs(node: ast.AST, name: str) -> List[ast.Attribute]:
+    return [x for x in ast.walk(node) if isinstance(x, ast.Attribute) and x.attr == name and isinstance(x.value, ast.Name) and x.value.id == 'self'
+            and isinstance(x.ctx, ast.Load)]
+
+
+def _view(ctx: Ctx, m: pf.Module) -> View:
+    v = View()
+    v.m, v.cls = m, m.cls(CLS)
+    # lookup is analysed with its same-class helpers inlined; the primitives the rules speak about stay calls
+    v.mi, v.il = inline.inline_methods(m, CLS, 'lookup', exclude=PRIMS)
+    v.clsi = v.mi.cls(CLS)
+    v.lk = af.method(v.mi, v.clsi, 'lookup')
+    ctx.need(len(v.lk.args.args) == 2, 'lookup parameters changed')
+    v.k = v.lk.args.args[1].arg
+    v.cfg = pf.cfg(v.lk)
+    methods = {f.name: f for f in v.cls.body if isinstance(f, (ast.FunctionDef, ast.AsyncFunctionDef))}
+    for G in _regs(v.cfg):
+        tc = _task_call(v.lk, G)
+        d = pf.dotted(tc.func) if tc is not None else None
+        if d and d.startswith('self.') and d != 'self.load' and d[5:] in methods and d[5:] not in v.bodies:
+            X = d[5:]
+            ctx.need(isinstance(methods[X], ast.AsyncFunctionDef) and X not in PRIMS and X != 'lookup' and not methods[X].decorator_list,
+                     f'lookup registers `{pf.nsrc(tc)}` as the shared task: not a plain coroutine method')
+            mx, ilx = inline.inline_methods(m, CLS, X, exclude=PRIMS + ('lookup',))
+            fx = af.method(mx, mx.cls(CLS), X)
+            ctx.need(len(fx.args.args) == 2 and not fx.args.kwonlyargs and not fx.args.vararg and not fx.args.kwarg, f'{CLS}.{X}: task body does not take exactly the key')
+            ctx.need(tc is not None and [pf.nsrc(a) for a in tc.args] == [v.k] and not tc.keywords, f'lookup registers `{pf.nsrc(tc)}`: the task body is not started for the key `{v.k}`')
+            v.bodies[X] = Body(X, mx, fx, ilx)
+    # helpers that have no life of their own: every reference was expanded into a root (lookup / a task body)
+    roots = {'lookup': (v.lk, v.il)}
+    roots.update({b.name: (b.fn, b.il) for b in v.bodies.values()})
+    inl: Set[str] = set()
+    skipped: Set[str] = set()
+    for _, il in roots.values():
+        inl |= {n for n, _ in il.inlined}
+        skipped |= {n for n, _, _ in il.skipped}
+    cand = {h for h in inl - skipped if h not in PRIMS and h not in roots and not any(_self_refs(fn, h) for fn, _ in roots.values())}
+    refs = {h: {f.name for f in methods.values() if _self_refs(f, h)} for h in cand}
+    changed = True
+    while changed:
+        changed = False
+        for h in cand - v.absorbed:
+            if refs[h] and all(r in roots or r in v.absorbed for r in refs[h]):
+                v.absorbed.add(h)
+                changed = True
+    # a task body is only ever started by lookup's registration
+    for X in v.bodies:
+        users = {f.name for f in methods.values() if _self_refs(f, X)}
+        ctx.need(all(u == 'lookup' or u in v.absorbed for u in users), f'{CLS}.{X} is also referenced outside lookup ({sorted(users)}): not analysed')
+        started = {id(tc.func) for G in _regs(v.cfg) for tc in [_task_call(v.lk, G)] if tc is not None}
+        ctx.need(all(id(r) in started for r in _self_refs(v.lk, X)), f'{CLS}.{X} is used in lookup other than as the registered task: not analysed')
+    return v
 
 
 def _map_writes(m: pf.Module, fn: pf.FuncDef) -> List[Tuple[str, str, str, ast.AST]]:
@@ -94,6 +233,24 @@ def _r1_maps(ctx: Ctx, m: pf.Module, cls: ast.ClassDef) -> None:
     reads_expiry = pf.nsrc(lam.body) == f'self._expiry_time[{lam.args.args[0].arg}]'
     ctx.need(reads_expiry, f'SortedSet key function `{pf.nsrc(lam)}` does not read self._expiry_time[k] (ordering by expiry not recognised)')
 
+    # the maps belong to the instance: created empty in __init__, not shared through a mutable class attribute
+    for mp in ('_futures', '_cache', '_expiry_time'):
+        own = [st for st in init.body if isinstance(st, (ast.Assign, ast.AnnAssign)) and st.value is not None
+               and any(pf.nsrc(t) == f'self.{mp}' for t in (st.targets if isinstance(st, ast.Assign) else [st.target]))]
+        fresh = [st for st in own if (isinstance(st.value, ast.Dict) and not st.value.keys) or (isinstance(st.value, ast.Call) and pf.dotted(st.value.func) in ('dict', 'collections.OrderedDict', 'OrderedDict')
+                                                                                              and not st.value.args and not st.value.keywords)]
+        shared = [st for st in cls.body if isinstance(st, (ast.Assign, ast.AnnAssign)) and getattr(st, 'value', None) is not None
+                  and any(isinstance(t, ast.Name) and t.id == mp for t in (st.targets if isinstance(st, ast.Assign) else [st.target]))]
+        cons = f'{F}::{CLS}::self.{mp} is per instance'
+        if fresh and len(own) == len(fresh):
+            ctx.ok('R1', cons, 'fresh dict in __init__')
+        elif not own and shared:
+            ctx.bad('R1', cons, f'`{pf.nsrc(shared[0])}` is a mutable class attribute and __init__ does not create a dict of its own: every {CLS} of the process '
+                    '(session cache, JAR cache, k8s caches) shares it, so one cache serves/evicts the other\'s entries, the shared dict holds up to the SUM of the '
+                    'capacities and a key collision returns a value loaded by a different loader', m.path, getattr(shared[0], 'lineno', 0))
+        else:
+            raise AnalysisError(f'{cons}: not initialised with an empty dict in __init__ (found {[pf.nsrc(s) for s in own + shared]})')
+
     put = af.method(m, cls, '_put')
     rem = af.method(m, cls, '_remove')
     kp = [a.arg for a in put.args.args]
@@ -125,10 +282,12 @@ def _r1_maps(ctx: Ctx, m: pf.Module, cls: ast.ClassDef) -> None:
         if isinstance(st, (ast.FunctionDef, ast.AsyncFunctionDef)) and st.name not in ('__init__', '_put', '_remove'):
             ws = [w for w in _map_writes(m, st) if w[0] in MAPS]
             ctx.check(not ws, 'R1', f'{F}::{CLS}.{st.name}::no direct map mutation',
-                      f'`{pf.nsrc(ws[0][3])}` mutates a cache map outside _put/_remove: the maps can drift apart' if ws else '', m.path, st.lineno)
+                      f'`{pf.nsrc(ws[0][3])}` mutates a cache map outside _put/_remove: the maps can drift apart (and an expiry time rewritten in place keeps a value '
+                      f'alive beyond lifetime_ns since its load)' if ws else '', m.path, st.lineno)
 
 
-def _r1_capacity(ctx: Ctx, m: pf.Module, cls: ast.ClassDef) -> None:
+def _r1_capacity(ctx: Ctx, v: View) -> None:
+    m, cls = v.mi, v.clsi
     oc = af.method(m, cls, '_over_capacity')
     body = af.body_no_doc(oc)
     ctx.need(len(body) == 1 and isinstance(body[0], ast.Return) and body[0].value is not None, '_over_capacity is not a single return')
@@ -158,16 +317,21 @@ def _r1_capacity(ctx: Ctx, m: pf.Module, cls: ast.ClassDef) -> None:
         held = isinstance(arg, ast.Subscript) and pf.nsrc(arg.value) in MAPS
         ctx.need(held, f'_evict_oldest removes `{pf.nsrc(arg) if arg is not None else "?"}`, not a key read from the cache maps')
 
-    lk = af.method(m, cls, 'lookup')
-    cfg = pf.cfg(lk)
-    puts = af.stmt_nodes(cfg, lambda n: af.node_is_call(n, 'self._put') is not None)
-    ctx.need(puts, 'lookup never calls _put (directly or through an inlinable helper)')
-    _capacity_after_puts(ctx, m, 'lookup', cfg, puts)
+    n = 0
+    for name, mm, fn, fcfg, _ in v.roots():
+        puts = af.stmt_nodes(fcfg, lambda x: af.node_is_call(x, 'self._put') is not None)
+        n += len(puts)
+        _capacity_after_puts(ctx, mm, name, fcfg, puts)
+    ctx.need(n >= 1, 'neither lookup nor the task it registers calls _put (directly or through an inlinable helper)')
 
 
 def _capacity_after_puts(ctx: Ctx, m: pf.Module, fname: str, cfg: pf.CFG, puts: List[pf.Node]) -> None:
     for P in puts:
         cons = f'{F}::{CLS}.{fname}::{P.text()}'
+        pc = af.node_is_call(P, 'self._put')
+        if pc is not None and pc.args and _removes_first(cfg, P, pf.nsrc(pc.args[0]), absent_edges=False):
+            ctx.ok('R1', cons, 'replaces the entry it has just removed: the number of entries does not grow')
+            continue
         tests = [t for t in cfg.nodes if t.kind == 'test' and af.mentions(t.ast, 'self._over_capacity()')]
         evs = af.stmt_nodes(cfg, lambda n: af.node_is_call(n, 'self._evict_oldest') is not None)
         verdict = None
@@ -187,74 +351,61 @@ def _capacity_after_puts(ctx: Ctx, m: pf.Module, fname: str, cfg: pf.CFG, puts: 
                   f'over-full cache', m.path, P.lineno, detail={'test': pf.nsrc(verdict[0].ast)})
 
 
-def _only_from_lookup(m: pf.Module, name: str, il, seen: Tuple[str, ...] = ()) -> bool:
-    """every call site of method `name` (original class) lies in lookup or in a method that is itself only called from lookup, and the
-    inliner expanded all of them: the method has no behaviour of its own beyond what the inlined lookup shows."""
-    if name in seen or name in {n for n, _, _ in il.skipped} or name in PRIMS:
-        return False
-    funcs = [(q, fn) for q, fn in m.functions() if q.startswith(CLS + '.')]
-    ss = [(q, c) for q, fn in funcs for c in ast.walk(fn) if isinstance(c, ast.Attribute) and pf.nsrc(c) == f'self.{name}' and m.enclosing_func(c) is fn]
-    if not ss:
-        return False
-    for q, _ in ss:
-        parts = q.split('.')
-        if len(parts) != 2:
-            return False
-        if parts[1] == 'lookup':
-            continue
-        if not _only_from_lookup(m, parts[1], il, seen + (name,)):
-            return False
-    return True
+def _removes_first(cfg: pf.CFG, node: pf.Node, key: str, absent_edges: bool = True) -> bool:
+    """Forward must-analysis: on every path to `node` the last relevant event is `self._remove(key)` or the absent edge of a
+    membership test of `key` in one of the three maps, with no suspension and no insertion afterwards."""
+    def is_rm(n: pf.Node) -> bool:
+        c = af.node_is_call(n, 'self._remove')
+        return c is not None and [pf.nsrc(a) for a in c.args] == [key]
+    preds: Dict[int, List[Tuple[pf.Node, str]]] = {}
+    for a in cfg.nodes:
+        for b, lab in a.succ:
+            preds.setdefault(b.id, []).append((a, lab))
+    out: Dict[int, bool] = {n.id: True for n in cfg.nodes}  # optimistic start, greatest fixpoint
+    out[cfg.entry.id] = False
+
+    def edge_val(a: pf.Node, lab: str) -> bool:
+        if absent_edges and a.kind == 'test' and lab in ('T', 'F') and any(cf.implied(a.ast, lab, f'{key} in {mp}', False) for mp in MAPS):
+            return True
+        return out[a.id]
+    changed = True
+    while changed:
+        changed = False
+        for n in cfg.nodes:
+            if n is cfg.entry:
+                continue
+            ps = preds.get(n.id, [])
+            inn = bool(ps) and all(edge_val(a, lab) for a, lab in ps)
+            if is_rm(n):
+                val = True
+            elif pf.node_has_await(n) or (n.ast is not None and n.kind != 'test' and any(pf.dotted(c.func) == 'self._put' for c in pf.node_calls(n))):
+                val = False
+            else:
+                val = inn
+            if n is node:
+                val = inn  # the state in which the insertion itself runs
+            if val != out[n.id]:
+                out[n.id] = val
+                changed = True
+    return out[node.id]
 
 
-def _r1_put_callers(ctx: Ctx, m: pf.Module, cls: ast.ClassDef, il) -> None:
+def _on_loader_path(v: View, name: str) -> bool:
+    return name == 'lookup' or name in v.bodies or name in v.absorbed
+
+
+def _r1_put_callers(ctx: Ctx, v: View) -> None:
     """who-may-call `_put`: `_keys_by_expiry.add(k)` is a no-op for a key that is already filed, which would stay filed under its old expiry
     (SortedSet caches the key function's value).  `_put` is therefore only sound where the key is absent from the index: on lookup's loader
-    path (absent at the miss decision, single flight keeps it absent), or right after removing it."""
+    path (absent at the miss decision, single flight keeps it absent; the registered task body is part of that path), or right after removing it."""
+    m, cls = v.m, v.cls
     put = af.method(m, cls, '_put')
     kp = put.args.args[1].arg
     pcfg = pf.cfg(put)
     adds = af.stmt_nodes(pcfg, lambda n: af.node_is_call(n, 'self._keys_by_expiry.add') is not None)
     ctx.need(len(adds) == 1, '_put: index insertion not found')
 
-    def removes_first(cfg: pf.CFG, node: pf.Node, key: str) -> bool:
-        """Forward must-analysis: on every path to `node` the last relevant event is `self._remove(key)` or the absent edge of a
-        membership test of `key` in one of the three maps, with no suspension and no insertion afterwards."""
-        def is_rm(n: pf.Node) -> bool:
-            c = af.node_is_call(n, 'self._remove')
-            return c is not None and [pf.nsrc(a) for a in c.args] == [key]
-        preds: Dict[int, List[Tuple[pf.Node, str]]] = {}
-        for a in cfg.nodes:
-            for b, lab in a.succ:
-                preds.setdefault(b.id, []).append((a, lab))
-        out: Dict[int, bool] = {n.id: True for n in cfg.nodes}  # optimistic start, greatest fixpoint
-        out[cfg.entry.id] = False
-
-        def edge_val(a: pf.Node, lab: str) -> bool:
-            if a.kind == 'test' and lab in ('T', 'F') and any(af.implied_on_edge(a.ast, lab, f'{key} in {mp}', False) for mp in MAPS):
-                return True
-            return out[a.id]
-        changed = True
-        while changed:
-            changed = False
-            for n in cfg.nodes:
-                if n is cfg.entry:
-                    continue
-                ps = preds.get(n.id, [])
-                inn = bool(ps) and all(edge_val(a, lab) for a, lab in ps)
-                if is_rm(n):
-                    v = True
-                elif pf.node_has_await(n) or (n.ast is not None and n.kind != 'test' and any(pf.dotted(c.func) == 'self._put' for c in pf.node_calls(n))):
-                    v = False
-                else:
-                    v = inn
-                if n is node:
-                    v = inn  # the state in which the insertion itself runs
-                if v != out[n.id]:
-                    out[n.id] = v
-                    changed = True
-        return out[node.id]
-    self_guarded = removes_first(pcfg, adds[0], kp)
+    self_guarded = _removes_first(pcfg, adds[0], kp)
     funcs = [(q, fn) for q, fn in m.functions() if q.startswith(CLS + '.')]
 
     def sites(name: str):
@@ -267,24 +418,36 @@ def _r1_put_callers(ctx: Ctx, m: pf.Module, cls: ast.ClassDef, il) -> None:
         if self_guarded:
             ctx.ok('R1', cons + '::key absent', '_put removes an existing entry first')
             continue
-        if len(parts) == 2 and (parts[1] == 'lookup' or _only_from_lookup(m, parts[1], il)):
-            ctx.ok('R1', cons + '::key absent', 'on lookup\'s loader path (analysed inlined)')
-            continue
         fcfg = pf.cfg(fn)
         nodes = [x for x in fcfg.nodes if x.ast is not None and any(y is c for y in ast.walk(x.ast)) and x.kind != 'def']
         key = pf.nsrc(c.args[0]) if c.args else '?'
-        ok = bool(nodes) and all(removes_first(fcfg, x, key) for x in nodes)
+        if len(parts) == 2 and _on_loader_path(v, parts[1]):
+            # absent at the miss decision -- unless this very frame read the key's entry as still present before (a hit that re-inserts)
+            ctx.ok('R1', cons + '::key absent', 'on lookup\'s loader path (analysed inlined)' if parts[1] not in v.bodies else 'in the task body registered by lookup on a miss')
+            continue
+        ok = bool(nodes) and all(_removes_first(fcfg, x, key) for x in nodes)
         ctx.check(ok, 'R1', cons + '::key absent', f'`{pf.nsrc(c)}` in {q} can run while `{key}` is still filed in the expiry index: SortedSet.add is a no-op for a member, so the key '
                   'stays filed under its old expiry while _expiry_time changes; the next _remove/_evict_oldest of it raises, eviction stops working (unbounded growth) and lookups '
                   'of unrelated keys fail', m.path, c.lineno)
         if ok and nodes:
             _capacity_after_puts(ctx, m, q.split('.', 1)[1], fcfg, nodes)
     ctx.need(n >= 1, '_put is never called')
+    # on the loader path itself: a `_put` that is reachable from the HIT side of the `k in self._cache` test re-files a key that is still filed
+    cfg, k = v.cfg, v.k
+    hits = [t for t in cfg.nodes if t.kind == 'test' and pf.nsrc(t.ast) == f'{k} in self._cache']
+    for P in af.stmt_nodes(cfg, lambda x: (c := af.node_is_call(x, 'self._put')) is not None and bool(c.args) and pf.nsrc(c.args[0]) == k):
+        for t in hits:
+            if af.direct(cfg, t, P, 'T') and not _removes_first(cfg, P, k):
+                ctx.bad('R1', f'{F}::{CLS}.lookup::{P.text()}::key absent', f'`{P.text()}` is reachable from the hit side of `{k} in self._cache` without removing `{k}` first: '
+                        'SortedSet.add is a no-op for a member, the key stays filed under its old expiry while _expiry_time changes; the next _remove/_evict_oldest of it raises '
+                        'and eviction stops working', v.mi.path, P.lineno)
+                break
 
 
-def _r2_fresh(ctx: Ctx, m: pf.Module, cls: ast.ClassDef) -> None:
+def _r2_fresh(ctx: Ctx, v: View) -> Optional[Tuple[pf.Node, str, pf.Node]]:
+    """returns (expiry test node, label of the edge that removes the expired entry) when recognised"""
+    m, cls = v.mi, v.clsi
     put = af.method(m, cls, '_put')
-    kp = [a.arg for a in put.args.args]
     ws = [w for w in _map_writes(m, put) if w[0] == 'self._expiry_time' and w[1] == 'set']
     ctx.need(len(ws) == 1, '_put: expiry write not found')
     val = pf.resolve_expr(put, ws[0][3].value)  # type: ignore[attr-defined]
@@ -299,11 +462,13 @@ def _r2_fresh(ctx: Ctx, m: pf.Module, cls: ast.ClassDef) -> None:
     ctx.check(pf.dotted(clocks[0].func) in CLOCK_OK, 'R2', f'{F}::{CLS}._put::clock', f'expiry uses `{clock_src}`, whose unit/epoch does not match lifetime_ns '
               f'(a monotonic nanosecond clock is required)', m.path, put.lineno)
 
-    lk = af.method(m, cls, 'lookup')
-    cfg = pf.cfg(lk)
-    k = [a.arg for a in lk.args.args][1]
+    lk, cfg, k = v.lk, v.cfg, v.k
     hits = af.stmt_nodes(cfg, lambda n: n.kind == 'return' and n.ast.value is not None and any(
         isinstance(x, ast.Subscript) and pf.nsrc(x.value) == 'self._cache' for x in ast.walk(n.ast.value)))
+    if not hits:
+        # the hit read through a local: `hit = self._cache[k]; ...; return hit` (the flow from the read to the return is judged by the provenance rule)
+        hits = af.stmt_nodes(cfg, lambda n: n.kind == 'stmt' and isinstance(n.ast, ast.Assign) and len(n.ast.targets) == 1 and isinstance(n.ast.targets[0], ast.Name)
+                             and isinstance(n.ast.value, ast.Subscript) and pf.nsrc(n.ast.value.value) == 'self._cache')
     ctx.need(len(hits) == 1, f'lookup: expected one return of a cached value, found {len(hits)}')
     H = hits[0]
     cons = f'{F}::{CLS}.lookup::{H.text()}'
@@ -316,7 +481,7 @@ def _r2_fresh(ctx: Ctx, m: pf.Module, cls: ast.ClassDef) -> None:
     if not xs:
         ctx.bad('R2', cons, 'the cached value is returned without comparing its expiry time with the clock: values older than lifetime_ns are served', m.path, H.lineno)
         af.blocked(ctx, 'R2', 'R2')
-        return
+        return None
     ctx.need(len(xs) == 1, f'lookup: {len(xs)} tests read {exp_src}')
     X = xs[0]
     Xe = rexp[X.id]
@@ -333,7 +498,21 @@ def _r2_fresh(ctx: Ctx, m: pf.Module, cls: ast.ClassDef) -> None:
     if lab is None:
         ctx.bad('R2', consx, f'no branch of the expiry test removes the entry before the hit test: an expired value is still returned by `{H.text()}`', m.path, X.lineno)
         af.blocked(ctx, 'R2', 'R2')
-        return
+        return None
+    if isinstance(Xe, ast.Compare):
+        # an expiry test with a grace term:  expiry + c <= now  removes only entries that are more than c past their expiry
+        nzg = af.compare_leq_zero(Xe, {exp_src: 'E', pf.nsrc(cl[0]): 'N', 'self.lifetime_ns': 'Lt'})
+        if nzg is not None and set(nzg[0]) <= {'E', 'N', 'Lt', '1'} and set(nzg[0]) - {'E', 'N'}:
+            dg = nzg[0]
+            sign = 1 if lab == 'T' else -1
+            if dg.get('E', 0) == sign and dg.get('N', 0) == -sign:
+                slack = [sign * dg.get('1', 0), sign * dg.get('Lt', 0)]
+                if all(x >= 0 for x in slack) and any(x > 0 for x in slack):
+                    ctx.bad('R2', consx, f'the expired entry is removed only when {af.lin_str(dg)} {"<" if nzg[1] else "<="} 0 is {lab == "T"}: an entry is still served '
+                            f'{"for " + str(slack[0]) + " ns" if slack[0] else ""}{" and " if slack[0] and slack[1] else ""}{"for " + str(slack[1]) + " lifetimes" if slack[1] else ""} after its '
+                            f'expiry time, i.e. a value older than lifetime_ns is returned', m.path, X.lineno)
+                    af.blocked(ctx, 'R2', 'R2')
+                    return None
     ev = af.TestEval(exp_src, pf.nsrc(cl[0]), [])
     rows = ev.rows(Xe)
     stale = [r for r in rows if r[0] == '<' and r[2] != (lab == 'T')]
@@ -359,44 +538,199 @@ def _r2_fresh(ctx: Ctx, m: pf.Module, cls: ast.ClassDef) -> None:
     # the hit is guarded by membership in the cache
     g = [t for t in cfg.nodes if t.kind == 'test' and pf.nsrc(t.ast) == f'{k} in self._cache' and af.every_path_uses_edge(cfg, H, t, 'T')]
     ctx.need(bool(g), f'{cons}: not guarded by `{k} in self._cache`')
+    return X, lab, H
 
 
-def _r3_single_flight(ctx: Ctx, m: pf.Module, cls: ast.ClassDef, m0: pf.Module, cls0: ast.ClassDef, il) -> None:
-    lk = af.method(m, cls, 'lookup')
-    cfg = pf.cfg(lk)
-    k = [a.arg for a in lk.args.args][1]
-    regs = af.stmt_nodes(cfg, lambda n: n.kind == 'stmt' and isinstance(n.ast, ast.Assign) and any(
-        isinstance(t, ast.Subscript) and pf.nsrc(t.value) == FUT for t in n.ast.targets))
+def _is_load_await(e: ast.AST, alias: Set[str] = frozenset()) -> bool:  # type: ignore[assignment]
+    """`await <expr>` whose operand waits for the load: it mentions the shared task `self._futures[...]` (or a local holding it) or calls `self.load(...)`"""
+    if not isinstance(e, ast.Await):
+        return False
+    for x in ast.walk(e.value):
+        if isinstance(x, ast.Subscript) and pf.nsrc(x.value) == FUT:
+            return True
+        if isinstance(x, ast.Name) and x.id in alias:
+            return True
+        if isinstance(x, ast.Call) and pf.dotted(x.func) == 'self.load':
+            return True
+    return False
+
+
+def _r2_provenance(ctx: Ctx, v: View, xinfo: Optional[Tuple[pf.Node, str, pf.Node]]) -> None:
+    """Every value lookup returns (directly or as the result of the shared task) and every value handed to `_put` is the result of the
+    awaited load.  The one direct `return self._cache[k]` is the hit judged by the freshness rules above."""
+    for name, mm, fn, cfg, k in v.roots():
+        alias: Set[str] = set()
+        for w in pf.walk_shallow(fn):
+            if isinstance(w, ast.Assign) and any(_is_fut_store(t) for t in w.targets):
+                alias |= {t.id for t in w.targets if isinstance(t, ast.Name)} | ({w.value.id} if isinstance(w.value, ast.Name) else set())
+        uses: List[Tuple[pf.Node, ast.AST, str]] = []
+        for n in af.stmt_nodes(cfg, lambda n: n.kind == 'return' and n.ast.value is not None):
+            uses.append((n, n.ast.value, 'return'))  # type: ignore[union-attr]
+        for n in af.stmt_nodes(cfg, lambda n: af.node_is_call(n, 'self._put') is not None):
+            c = af.node_is_call(n, 'self._put')
+            val = c.args[1] if c is not None and len(c.args) >= 2 else next((kw.value for kw in c.keywords if kw.arg == 'v'), None)  # type: ignore[union-attr]
+            if val is None:
+                v.deferred.append(f'{CLS}.{name}: `{n.text()}`: stored value not found')
+                continue
+            uses.append((n, val, 'put'))
+        for U, e, role in uses:
+            cons = f'{F}::{CLS}.{name}::{U.text()}::value is the loaded one'
+            if role == 'return' and isinstance(e, ast.Subscript) and pf.nsrc(e.value) == 'self._cache':
+                continue  # the hit
+            stale: List[str] = []
+            unknown: List[str] = []
+            for o in cf.origins(fn, cfg, U, e):
+                if o.kind == 'await' and _is_load_await(o.expr, alias):  # type: ignore[arg-type]
+                    continue
+                is_cache = (o.kind == 'subscript' and pf.nsrc(o.expr.value) == 'self._cache') or \
+                    (o.kind == 'call' and (pf.dotted(o.expr.func) or '') in ('self._cache.get', 'self._cache.pop', 'self._cache.setdefault'))  # type: ignore[union-attr]
+                if is_cache:
+                    where = f'`{o.node.text()}`'
+                    on_removed = xinfo is not None and name == 'lookup' and o.node is not xinfo[0] and af.every_path_uses_edge(cfg, o.node, xinfo[0], xinfo[1])
+                    susp = [x for x in af.between(cfg, o.node, U) if pf.node_has_await(x)] if o.node is not U else []
+                    if role == 'put' and on_removed:
+                        stale.append(f'{where} keeps the value of an entry that the expiry test has just found EXPIRED, and `{U.text()}` stores it again with a fresh expiry time: '
+                                     f't=0 lookup({k}) loads v0; t>lifetime lookup({k}) finds it expired, remembers v0, the reload does not deliver, v0 is re-inserted and served as a '
+                                     f'hit for another lifetime_ns (and renewed again at the next failing reload): the age of the served value is unbounded')
+                    elif role == 'put':
+                        stale.append(f'{where} reads a value from the cache and `{U.text()}` stores it again with a fresh expiry time: its age since it was loaded then exceeds '
+                                     f'lifetime_ns while every hit still serves it (t=0 load v0; t=L-1 hit re-inserts v0 with expiry 2L-1; t=2L-2 hit returns v0, loaded 2L-2 > L ago)')
+                    elif on_removed:
+                        stale.append(f'{where} keeps the value of an entry that the expiry test has just found EXPIRED, and `{U.text()}` returns it: t=0 lookup({k}) loads v0; '
+                                     f't>lifetime lookup({k}) finds the entry expired, remembers v0, the reload does not deliver, v0 (older than lifetime_ns) is returned')
+                    elif susp:
+                        stale.append(f'{where} reads the cached value, `{susp[0].text()}` suspends, then `{U.text()}` returns it: it can be older than lifetime_ns by then')
+                    elif xinfo is not None and name == 'lookup' and o.node is xinfo[2]:
+                        pass  # the hit read judged by the freshness rules, returned without a suspension in between
+                    else:
+                        unknown.append(f'`{U.text()}` returns a cached value through a local ({where}): freshness of that path not analysed')
+                    continue
+                if o.kind == 'except':
+                    stale.append(f'`{U.text()}` {"stores" if role == "put" else "returns"} the exception object caught by `{o.text()}` as if it were a loaded value: later lookups of `{k}` '
+                                 f'get the failure of an earlier load (negative caching) although their own load did not fail -- no load is even attempted for them')
+                    continue
+                unknown.append(f'`{U.text()}`: value can come from `{o.text()}` ({o.kind}), which is neither the awaited load nor the freshness-guarded cache read')
+            if stale:
+                ctx.bad('R2', cons, stale[0], mm.path, U.lineno)
+            elif unknown:
+                v.deferred.append(f'{CLS}.{name}: {unknown[0]}')
+            else:
+                ctx.ok('R2', cons, role)
+
+
+# --------------------------------------------------------------------------------------
+# R3 / R4
+# --------------------------------------------------------------------------------------
+
+
+def _fut_awaits(v: View) -> List[Tuple[str, pf.Module, pf.FuncDef, ast.Await, bool]]:
+    """(function, module, fn, await node, shielded) for every await of a task read from the shared _futures map"""
+    fns: List[Tuple[str, pf.Module, pf.FuncDef]] = [('lookup', v.mi, v.lk)] + [(b.name, b.m, b.fn) for b in v.bodies.values()]
+    for st in v.cls.body:
+        if isinstance(st, (ast.FunctionDef, ast.AsyncFunctionDef)) and st.name != 'lookup' and st.name not in v.bodies and st.name not in v.absorbed:
+            fns.append((st.name, v.m, st))
+    out = []
+    for name, mm, fn in fns:
+        par = mm.parents()
+        # locals that hold the registered task (`task = create_task(...); self._futures[k] = task` / `t = self._futures[k] = ...`)
+        alias: Set[str] = set()
+        for w in pf.walk_shallow(fn):
+            if isinstance(w, ast.Assign) and any(_is_fut_store(t) for t in w.targets):
+                alias |= {t.id for t in w.targets if isinstance(t, ast.Name)}
+                if isinstance(w.value, ast.Name):
+                    alias.add(w.value.id)
+        for a in pf.walk_shallow(fn):
+            if not isinstance(a, ast.Await):
+                continue
+            for x in ast.walk(a.value):
+                if (isinstance(x, ast.Subscript) and isinstance(x.ctx, ast.Load) and pf.nsrc(x.value) == FUT) or (isinstance(x, ast.Name) and x.id in alias):
+                    cur = par.get(x)
+                    shielded = False
+                    while cur is not None and cur is not a:
+                        if isinstance(cur, ast.Call) and pf.dotted(cur.func) in ('asyncio.shield', 'shield'):
+                            shielded = True
+                        cur = par.get(cur)
+                    out.append((name, mm, fn, a, shielded))
+    return out
+
+
+def _is_dereg(n: pf.Node, k: str) -> bool:
+    return (isinstance(n.ast, ast.Delete) and any(isinstance(t, ast.Subscript) and pf.nsrc(t.value) == FUT and pf.nsrc(t.slice) == k for t in n.ast.targets)) \
+        or ((c := af.node_is_call(n, f'{FUT}.pop')) is not None and bool(c.args) and pf.nsrc(c.args[0]) == k)
+
+
+def _stmt_deregs(st: ast.AST) -> bool:
+    return any(isinstance(s, ast.Delete) and any(isinstance(t, ast.Subscript) and pf.nsrc(t.value) == FUT for t in s.targets)
+               or (isinstance(s, ast.Call) and pf.dotted(s.func) == f'{FUT}.pop') for s in ast.walk(st))
+
+
+def _r3_single_flight(ctx: Ctx, v: View) -> None:
+    lk, cfg, k, m = v.lk, v.cfg, v.k, v.mi
+    regs = _regs(cfg)
     ctx.need(len(regs) >= 1, f'lookup: no registration `{FUT}[k] = ...` found')
-    # every call of the loader is the task of a registration analysed below
-    inreg = {id(c) for G in regs for c in ast.walk(G.ast) if isinstance(c, ast.Call)}
+    # every call of the loader is the task of a registration analysed below, or is awaited inside the task body a registration starts
+    inreg = {id(c) for G in regs for c in ast.walk(pf.resolve_expr(lk, G.ast.value)) if isinstance(c, ast.Call)}  # type: ignore[union-attr]
     loads = [c for c in pf.calls_in(lk, True) if pf.dotted(c.func) == 'self.load']
-    free = [c for c in loads if id(c) not in inreg]
-    ctx.check(bool(loads) and not free, 'R3', f'{F}::{CLS}::self.load only as a registered task', f'self.load is called at line {free[0].lineno if free else 0} outside a `{FUT}[k] = '
-              'asyncio.create_task(self.load(k))` registration: that load is not shared with concurrent lookups of the key', m.path, lk.lineno)
-    for st in cls0.body:
-        if isinstance(st, (ast.FunctionDef, ast.AsyncFunctionDef)) and st.name != 'lookup' and not _only_from_lookup(m0, st.name, il):
+    free = [(c, 'lookup') for c in loads if id(c) not in inreg]
+    for b in v.bodies.values():
+        par = b.m.parents()
+        for c in [c for c in pf.calls_in(b.fn, True) if pf.dotted(c.func) == 'self.load']:
+            loads.append(c)
+            cur: Optional[ast.AST] = c
+            awaited = False
+            while cur is not None and cur is not b.fn:
+                if isinstance(cur, ast.Await):
+                    awaited = True
+                cur = par.get(cur)
+            if not awaited or [pf.nsrc(a) for a in c.args] != [b.k] or b.m.enclosing_func(c) is not b.fn:
+                free.append((c, b.name))
+    ctx.check(bool(loads) and not free, 'R3', f'{F}::{CLS}::self.load only as a registered task',
+              (f'self.load is called at line {free[0][0].lineno} in {free[0][1]} outside a `{FUT}[k] = asyncio.create_task(...)` registration (or not awaited for the task\'s own '
+               'key): that load is not shared with concurrent lookups of the key') if free else 'self.load is never called', m.path, lk.lineno)
+    for st in v.cls.body:
+        if isinstance(st, (ast.FunctionDef, ast.AsyncFunctionDef)) and not _on_loader_path(v, st.name):
             ctx.need(not [c for c in pf.calls_in(st, True) if pf.dotted(c.func) == 'self.load'], f'{CLS}.{st.name} calls self.load outside lookup (not analysed)')
+    unshielded = [x for x in _fut_awaits(v) if not x[4]]
     for G in regs:
-        _r3_one(ctx, m, lk, cfg, k, G, len(regs))
+        _r3_one(ctx, v, G, unshielded)
 
 
-def _r3_one(ctx: Ctx, m: pf.Module, lk: pf.FuncDef, cfg: pf.CFG, k: str, G: pf.Node, nregs: int) -> None:
+def _callback_removes(v: View, cb: ast.AST, k: str) -> Optional[bool]:
+    """does the done-callback always remove the registration of `k`?  None = shape not recognised"""
+    if isinstance(cb, ast.Lambda):
+        b = cb.body
+        if isinstance(b, ast.Call) and pf.dotted(b.func) in (f'{FUT}.pop', f'{FUT}.__delitem__') and b.args and pf.nsrc(b.args[0]) == k:
+            return True
+        return None
+    if isinstance(cb, ast.Name):
+        defs = [s for s in ast.walk(v.lk) if isinstance(s, ast.FunctionDef) and s.name == cb.id]
+        if len(defs) != 1:
+            return None
+        c2 = pf.cfg(defs[0])
+        dn = [n for n in c2.nodes if n.ast is not None and _is_dereg(n, k)]
+        if not dn:
+            return False
+        first = af.body_no_doc(defs[0])
+        return bool(first) and any(first[0] is n.ast or (isinstance(first[0], ast.Expr) and first[0].value is getattr(n.ast, 'value', None)) for n in dn)
+    return None
+
+
+def _r3_one(ctx: Ctx, v: View, G: pf.Node, unshielded) -> None:
+    lk, cfg, k, m = v.lk, v.cfg, v.k, v.mi
     cons = f'{F}::{CLS}.lookup::{G.text()}'
-    ctx.need(pf.nsrc(G.ast.targets[0].slice) == k, f'{cons}: registers under a different key')  # type: ignore[union-attr]
-    val = G.ast.value  # type: ignore[union-attr]
-    ok_task = isinstance(val, ast.Call) and pf.dotted(val.func) in ('asyncio.create_task', 'asyncio.ensure_future') and len(val.args) == 1 \
-        and isinstance(val.args[0], ast.Call) and pf.dotted(val.args[0].func) == 'self.load' and [pf.nsrc(a) for a in val.args[0].args] == [k]
-    ctx.need(ok_task, f'{cons}: registered value is not asyncio.create_task(self.load({k}))')
-    cbs = [c for n in cfg.nodes if n.ast is not None for c in ast.walk(n.ast) if isinstance(c, ast.Call) and isinstance(c.func, ast.Attribute) and c.func.attr == 'add_done_callback'
-           and pf.nsrc(c.func.value).startswith(FUT)]
-    ctx.need(not cbs, f'{cons}: the registered task is completed through add_done_callback (deregistration outside the CFG of lookup: not analysed)')
+    tgt = [t for t in G.ast.targets if _is_fut_store(t)][0]  # type: ignore[union-attr]
+    ctx.need(pf.nsrc(tgt.slice) == k, f'{cons}: registers under a different key')
+    tc = _task_call(lk, G)
+    d = pf.dotted(tc.func) if tc is not None else None
+    body = v.bodies.get(d[5:]) if d and d.startswith('self.') else None
+    ok_task = tc is not None and [pf.nsrc(a) for a in tc.args] == [k] and (d == 'self.load' or body is not None)
+    ctx.need(ok_task, f'{cons}: registered value is not asyncio.create_task(self.load({k})) / create_task(self.<coroutine method>({k}))')
     # guard: absent-edge of `k in self._futures`, atomically
     tests = [t for t in cfg.nodes if t.kind == 'test' and af.mentions(t.ast, FUT)]
     guard = None
     for t in tests:
         for lab in ('T', 'F'):
-            if af.every_path_uses_edge(cfg, G, t, lab) and af.direct(cfg, t, G, lab) and af.implied_on_edge(t.ast, lab, f'{k} in {FUT}', False):
+            if af.every_path_uses_edge(cfg, G, t, lab) and af.direct(cfg, t, G, lab) and cf.implied(t.ast, lab, f'{k} in {FUT}', False):
                 guard = (t, lab)
     if guard is None:
         ctx.bad('R3', cons + '::guard', f'the load is registered without first finding `{k} in {FUT}` false: concurrent lookups of one key each start a load '
@@ -418,127 +752,225 @@ def _r3_one(ctx: Ctx, m: pf.Module, lk: pf.FuncDef, cfg: pf.CFG, k: str, G: pf.N
             aw2 = [x for x in af.between(cfg, miss[0], G, 'F') if pf.node_has_await(x)]
             ctx.check(not aw2, 'R3', cons + '::atomic since miss', f'`{aw2[0].text() if aw2 else ""}` suspends between the cache-miss decision and the registration: '
                       'a load that completes in between is repeated', m.path, G.lineno)
-    # removal on every exit
-    dels = af.stmt_nodes(cfg, lambda n: (isinstance(n.ast, ast.Delete) and any(isinstance(t, ast.Subscript) and pf.nsrc(t.value) == FUT and pf.nsrc(t.slice) == k for t in n.ast.targets))
-                         or ((c := af.node_is_call(n, f'{FUT}.pop')) is not None and c.args and pf.nsrc(c.args[0]) == k))
+
+    # ---- removal of the registration ------------------------------------------------------------------------------------
     consd = f'{F}::{CLS}.lookup::deregistration'
-    leak = cfg.path_avoiding(G, lambda n: n is cfg.exit or n is cfg.raise_exit, lambda n: any(n is d for d in dels))
-    ctx.check(bool(dels) and leak is None, 'R3', consd, 'some exit of the loader leaves the finished/failed task registered: later lookups of that key await the old task for ever '
-              '(stale value after expiry, or the old error)' + (f' (via `{leak[-2].text()}`)' if leak and len(leak) > 1 else ''), m.path, G.lineno)
-    # cancellation exits of the awaits after the registration
-    for n in af.stmt_nodes(cfg, pf.node_has_await):
-        if not af.direct(cfg, G, n):
+    dels = af.stmt_nodes(cfg, lambda n: _is_dereg(n, k))
+    # (ii) a done-callback attached to the task before anything can suspend or leave
+    aliases = {pf.nsrc(t) for t in G.ast.targets}  # type: ignore[union-attr]
+    if isinstance(G.ast.value, ast.Name):  # type: ignore[union-attr]
+        aliases.add(G.ast.value.id)  # type: ignore[union-attr]
+    cbn = [n for n in af.stmt_nodes(cfg, lambda n: any(isinstance(c.func, ast.Attribute) and c.func.attr == 'add_done_callback' and pf.nsrc(c.func.value) in aliases
+                                                        for c in pf.node_calls(n))) if af.direct(cfg, G, n)]
+    cb_verdicts: List[Optional[bool]] = []
+    for n in cbn:
+        c = [c for c in pf.node_calls(n) if isinstance(c.func, ast.Attribute) and c.func.attr == 'add_done_callback'][0]
+        before = af.must_pass(cfg, G, lambda x: x is cfg.exit or x is cfg.raise_exit or pf.node_has_await(x), lambda x, n=n: x is n) is None
+        r = _callback_removes(v, c.args[0], k) if c.args else None
+        cb_verdicts.append(r if before or r is None else False)
+    if any(r is None for r in cb_verdicts):
+        v.deferred.append(f'{cons}: the registered task is completed through add_done_callback with a callback that is not a recognised removal (not analysed)')
+    callback_ok = any(r is True for r in cb_verdicts)
+    frame_dels = [dn for dn in dels if af.direct(cfg, G, dn)]
+    body_dels = [n for n in body.cfg.nodes if n.ast is not None and _is_dereg(n, body.k)] if body is not None else []
+
+    if frame_dels or not (callback_ok or body_dels):
+        # (i) the registering frame removes it: on every exit, and on cancellation at each of its suspension points
+        leak = cfg.path_avoiding(G, lambda n: n is cfg.exit or n is cfg.raise_exit, lambda n: any(n is dn for dn in dels))
+        ctx.check(bool(dels) and leak is None or callback_ok, 'R3', consd, 'some exit of the loader leaves the finished/failed task registered: later lookups of that key await the '
+                  'old task for ever (stale value after expiry, or the old error)' + (f' (via `{leak[-2].text()}`)' if leak and len(leak) > 1 else ''), m.path, G.lineno)
+        for n in af.stmt_nodes(cfg, pf.node_has_await):
+            if not af.direct(cfg, G, n):
+                continue
+            if dels and all(cfg.dominated_by(n, lambda x, dn=dn: x is dn) for dn in dels if af.direct(cfg, G, dn)) and any(af.direct(cfg, dn, n) for dn in dels):
+                continue  # after the deregistration
+            for a in pf.walk_shallow(n.ast):
+                if isinstance(a, ast.Await):
+                    blocks, _ = af.cancel_blocks(m, lk, a)
+                    cleaned = any(_stmt_deregs(st) for _, b in blocks for st in b)
+                    ctx.check(cleaned or callback_ok, 'R3', consd + f'::on cancellation of `{pf.nsrc(a)}`',
+                              'when the loader is cancelled at this await no finally/except removes the registration', m.path, a.lineno)
+        raising = [x for x in frame_dels if isinstance(x.ast, ast.Delete) or ((c2 := af.node_is_call(x, f'{FUT}.pop')) is not None and len(c2.args) == 1)]
+        if raising and body_dels:
+            ctx.bad('R3', consd + '::once', f'the registration of `{k}` is removed inside the task body {body.name} (`{body_dels[0].text()}`) and again by the registering frame '  # type: ignore[union-attr]
+                    f'(`{raising[0].text()}`): the task finishes first, so the frame\'s removal raises KeyError on every miss and the lookup fails although its load succeeded',
+                    m.path, G.lineno)
+        return
+    if callback_ok:
+        ctx.ok('R3', consd, 'done-callback attached before any suspension removes the registration (runs even if the task never starts)')
+        return
+    # (iii) only the registered task's own body removes the registration
+    assert body is not None
+    bcfg = body.cfg
+    leak = bcfg.path_avoiding(bcfg.entry, lambda n: n is bcfg.exit or n is bcfg.raise_exit, lambda n: any(n is dn for dn in body_dels))
+    uncovered = []
+    for n in af.stmt_nodes(bcfg, pf.node_has_await):
+        if all(bcfg.dominated_by(n, lambda x, dn=dn: x is dn) for dn in body_dels):
             continue
-        if dels and all(cfg.dominated_by(n, lambda x, d=d: x is d) for d in dels if af.direct(cfg, G, d)) and any(af.direct(cfg, d, n) for d in dels):
-            continue  # after the deregistration
         for a in pf.walk_shallow(n.ast):
             if isinstance(a, ast.Await):
-                blocks, _ = af.cancel_blocks(m, lk, a)
-                cleaned = any(isinstance(s, ast.Delete) and any(isinstance(t, ast.Subscript) and pf.nsrc(t.value) == FUT for t in s.targets)
-                              or (isinstance(s, ast.Call) and pf.dotted(s.func) == f'{FUT}.pop')
-                              for _, b in blocks for st in b for s in ast.walk(st))
-                ctx.check(cleaned, 'R3', consd + f'::on cancellation of `{pf.nsrc(a)}`',
-                          'when the loader is cancelled at this await no finally/except removes the registration', m.path, a.lineno)
+                blocks, _ = af.cancel_blocks(body.m, body.fn, a)
+                if not any(_stmt_deregs(st) for _, b in blocks for st in b):
+                    uncovered.append(a)
+    if leak is not None or uncovered:
+        ctx.bad('R3', consd, f'the task body {body.name} leaves the finished/failed task registered on some exit'
+                + (f' (via `{leak[-2].text()}`)' if leak and len(leak) > 1 else f' (cancellation at `{pf.nsrc(uncovered[0])}`)' if uncovered else '')
+                + ': later lookups of that key await the old task for ever', body.m.path, body.fn.lineno)
+        return
+    if unshielded:
+        u = unshielded[0]
+        ctx.bad('R3', consd, f'the registration `{G.text()}` is only removed inside the registered task itself (`{body_dels[0].text()}` in {body.name}), and '
+                f'`{pf.nsrc(u[3])}` in {u[0]} awaits the shared task without asyncio.shield: if that caller is cancelled before the task has run its first step '
+                f'(same event-loop iteration, e.g. wait_for(timeout=0) or a disconnect), CancelledError is thrown into a coroutine that has not started, its try/finally is '
+                f'never entered and the cancelled task stays in {FUT}[{k}] for ever: every later lookup({k}) raises CancelledError although it was not cancelled and no load '
+                f'failed.  Remove the registration in the registering frame (try/finally around its await) or with task.add_done_callback', m.path, G.lineno)
+    else:
+        ctx.ok('R3', consd, f'removed in the task body {body.name}; every await of the shared task is shielded, so no caller can cancel it before it starts')
 
 
-def _r4_shield(ctx: Ctx, m: pf.Module, cls: ast.ClassDef, m0: pf.Module, il) -> None:
-    par = m.parents()
+def _r4_shield(ctx: Ctx, v: View) -> None:
     n = 0
-    for st in cls.body:
-        if not isinstance(st, (ast.FunctionDef, ast.AsyncFunctionDef)):
-            continue
-        if st.name != 'lookup' and _only_from_lookup(m0, st.name, il):
-            continue  # a helper with no other caller: its awaits are judged where they were inlined into lookup
-        for a in pf.walk_shallow(st):
-            if not isinstance(a, ast.Await):
-                continue
-            for x in ast.walk(a.value):
-                if isinstance(x, ast.Subscript) and isinstance(x.ctx, ast.Load) and pf.nsrc(x.value) == FUT:
-                    n += 1
-                    cur = par.get(x)
-                    shielded = False
-                    while cur is not None and cur is not a:
-                        if isinstance(cur, ast.Call) and pf.dotted(cur.func) in ('asyncio.shield', 'shield'):
-                            shielded = True
-                        cur = par.get(cur)
-                    role = 'loader' if any(isinstance(w, ast.Assign) and any(isinstance(t, ast.Subscript) and pf.nsrc(t.value) == FUT for t in w.targets)
-                                           for w in pf.walk_shallow(st)) and not isinstance(_stmt_of(m, st, a), ast.Return) else 'waiter'
-                    cons = f'{F}::{CLS}.{st.name}::{pf.nsrc(a)}'
-                    if role == 'waiter':
-                        msg = (f'`{pf.nsrc(a)}` awaits the shared load task without asyncio.shield: if this waiting lookup is cancelled the await cancels the shared task, '
-                               'so the loader and every other waiter get CancelledError although their load did not fail and they were not cancelled')
-                    else:
-                        msg = (f'`{pf.nsrc(a)}` awaits the shared load task without asyncio.shield: if the lookup that started the load is cancelled the task is cancelled '
-                               'with it, and every concurrent lookup waiting on the same key gets CancelledError although it was not cancelled and its load did not fail')
-                    ctx.check(shielded, 'R4', cons, msg, m.path, a.lineno)
+    for name, mm, fn, a, shielded in _fut_awaits(v):
+        n += 1
+        role = 'loader' if any(isinstance(w, ast.Assign) and any(_is_fut_store(t) for t in w.targets)
+                               for w in pf.walk_shallow(fn)) and not isinstance(_stmt_of(mm, fn, a), ast.Return) else 'waiter'
+        cons = f'{F}::{CLS}.{name}::{pf.nsrc(a)}'
+        if role == 'waiter':
+            msg = (f'`{pf.nsrc(a)}` awaits the shared load task without asyncio.shield: if this waiting lookup is cancelled the await cancels the shared task, '
+                   'so the loader and every other waiter get CancelledError although their load did not fail and they were not cancelled')
+        else:
+            msg = (f'`{pf.nsrc(a)}` awaits the shared load task without asyncio.shield: if the lookup that started the load is cancelled the task is cancelled '
+                   'with it, and every concurrent lookup waiting on the same key gets CancelledError although it was not cancelled and its load did not fail')
+        ctx.check(shielded, 'R4', cons, msg, mm.path, a.lineno)
     ctx.need(n >= 1, 'no await of a task read from _futures found (idiom not recognised)')
 
 
-def _r5_auth(ctx: Ctx) -> None:
-    m = pf.load(AU)
-    par = m.parents()
-    sites = [c for c in ast.walk(m.tree) if isinstance(c, ast.Call) and pf.dotted(c.func) == CLS]
-    ctx.need(len(sites) >= 1, f'{AU}: no construction of {CLS}')
-    cm = pf.load(F)
-    init = af.method(cm, cm.cls(CLS), '__init__')
-    pnames = [a.arg for a in init.args.args][1:]
-    ctx.need(pnames == ['load', 'lifetime_ns', 'num_slots', 'cache_name'], f'{CLS}.__init__ parameters changed: {pnames}')
-    attrs = []
-    for c in sites:
-        fn = m.enclosing_func(c)
-        q = m.qualname(fn) if fn is not None else '<module>'
-        bound: Dict[str, ast.AST] = dict(zip(pnames, c.args))
-        for kw in c.keywords:
-            if kw.arg:
-                bound[kw.arg] = kw.value
-        for pname in ('lifetime_ns', 'num_slots'):
-            cons = f'{AU}::{q}::{CLS}({pname}={pf.nsrc(bound[pname]) if pname in bound else "?"})'
-            ctx.need(pname in bound, f'{cons}: argument not passed')
-            v = af.const_number(m, bound[pname])
-            ctx.need(v is not None, f'{cons}: not a constant expression')
-            ctx.check(v > 0 and v.denominator == 1, 'R5', cons, f'{pname} = {v}: the class asserts {pname} > 0 (the bound and freshness arguments need a positive '  # type: ignore[union-attr,operator]
-                      f'integer)', m.path, c.lineno, detail={'value': int(v)})  # type: ignore[arg-type]
-        p = par.get(c)
-        if isinstance(p, ast.Assign) and len(p.targets) == 1 and isinstance(p.targets[0], ast.Attribute):
-            attrs.append(p.targets[0].attr)
-    ctx.need(attrs, f'{AU}: the cache is not stored in an attribute')
-    for n in ast.walk(m.tree):
-        if isinstance(n, ast.Attribute) and n.attr in attrs and isinstance(n.ctx, ast.Load):
-            fn = m.enclosing_func(n)
+# --------------------------------------------------------------------------------------
+# R5 use sites and constructor options
+# --------------------------------------------------------------------------------------
+
+
+def _const_expr(m: pf.Module, e: ast.AST) -> Optional[ast.Constant]:
+    if isinstance(e, ast.Constant):
+        return e
+    num = af.const_number(m, e)
+    if num is not None:
+        return ast.Constant(value=int(num) if num.denominator == 1 else float(num))
+    if isinstance(e, ast.Name):
+        try:
+            g = m.global_assign(e.id)
+        except AnalysisError:
+            return None
+        return g if isinstance(g, ast.Constant) else None
+    return None
+
+
+def _r5_sites(ctx: Ctx, cm: pf.Module) -> List[Tuple[str, Dict[str, ast.Constant]]]:
+    """R5 at the construction sites; returns the option configuration (attr -> constant) of each site, first the session cache."""
+    ccls = cm.cls(CLS)
+    init = af.method(cm, ccls, '__init__')
+    ia = init.args
+    ctx.need(not ia.vararg and not ia.kwarg and not ia.posonlyargs, f'{CLS}.__init__ takes star arguments')
+    pnames = [a.arg for a in ia.args][1:]
+    kwonly = [a.arg for a in ia.kwonlyargs]
+    ctx.need(pnames[:4] == BASE_PARAMS, f'{CLS}.__init__ parameters changed: {pnames}')
+    opts = cf.option_attrs(ccls, BASE_PARAMS)
+    configs: List[Tuple[str, Dict[str, ast.Constant]]] = []
+    for rel, what in ((AU, 'session'), (JAR, 'jar')):
+        m = pf.load(rel)
+        par = m.parents()
+        sites = [c for c in ast.walk(m.tree) if isinstance(c, ast.Call) and pf.dotted(c.func) == CLS]
+        ctx.need(len(sites) >= 1, f'{rel}: no construction of {CLS}')
+        attrs = []
+        for c in sites:
+            fn = m.enclosing_func(c)
             q = m.qualname(fn) if fn is not None else '<module>'
-            p = par.get(n)
-            cons = f'{AU}::{q}::{pf.nsrc(p) if p is not None else pf.nsrc(n)}'
-            okuse = isinstance(p, ast.Attribute) and p.value is n and p.attr in ('lookup', 'shutdown') and isinstance(par.get(p), ast.Call) \
-                and (p.attr != 'lookup' or isinstance(par.get(par[p]), ast.Await))
-            ctx.check(okuse, 'R5', cons, f'`{pf.nsrc(p) if p is not None else pf.nsrc(n)}` uses the cache other than through `await ....lookup(k)`: internal maps are '
-                      f'read/written without the expiry, capacity and single-flight logic', m.path, n.lineno)
+            ctx.need(not any(isinstance(a, ast.Starred) for a in c.args) and all(kw.arg for kw in c.keywords) and len(c.args) <= len(pnames),
+                     f'{rel}::{q}: {CLS}(...) with star arguments')
+            bound: Dict[str, ast.AST] = dict(zip(pnames, c.args))
+            for kw in c.keywords:
+                ctx.need(kw.arg in pnames + kwonly, f'{rel}::{q}: {CLS}({kw.arg}=...) is not a constructor parameter')
+                bound[kw.arg] = kw.value  # type: ignore[index]
+            for pname in ('lifetime_ns', 'num_slots'):
+                cons = f'{rel}::{q}::{CLS}({pname}={pf.nsrc(bound[pname]) if pname in bound else "?"})'
+                ctx.need(pname in bound, f'{cons}: argument not passed')
+                val = af.const_number(m, bound[pname])
+                ctx.need(val is not None, f'{cons}: not a constant expression')
+                ctx.check(val > 0 and val.denominator == 1, 'R5', cons, f'{pname} = {val}: the class asserts {pname} > 0 (the bound and freshness arguments need a positive '  # type: ignore[union-attr,operator]
+                          f'integer)', m.path, c.lineno, detail={'value': int(val)})  # type: ignore[arg-type]
+            conf: Dict[str, ast.Constant] = {}
+            for p, (attr, default) in opts.items():
+                e = bound.get(p, default)
+                ce = _const_expr(m if p in bound else cm, e) if e is not None else None
+                if ce is not None:
+                    conf[attr] = ce
+                    if p in bound:
+                        ctx.ok('R5', f'{rel}::{q}::{CLS}({p}={pf.nsrc(e)})', {'option': attr, 'value': repr(ce.value), 'propagated': True})
+                # otherwise the option stays symbolic: both branches of every test on it are analysed
+            label = f'{what} cache options: ' + (', '.join(f'{a}={conf[a].value!r}' for a in sorted(conf)) or 'none')
+            configs.append((label, conf))
+            p = par.get(c)
+            if isinstance(p, ast.Assign) and len(p.targets) == 1 and isinstance(p.targets[0], ast.Attribute):
+                attrs.append(p.targets[0].attr)
+        if rel != AU:
+            continue
+        ctx.need(attrs, f'{AU}: the cache is not stored in an attribute')
+        for n in ast.walk(m.tree):
+            if isinstance(n, ast.Attribute) and n.attr in attrs and isinstance(n.ctx, ast.Load):
+                fn = m.enclosing_func(n)
+                q = m.qualname(fn) if fn is not None else '<module>'
+                p = par.get(n)
+                cons = f'{AU}::{q}::{pf.nsrc(p) if p is not None else pf.nsrc(n)}'
+                okuse = isinstance(p, ast.Attribute) and p.value is n and p.attr in ('lookup', 'shutdown') and isinstance(par.get(p), ast.Call) \
+                    and (p.attr != 'lookup' or isinstance(par.get(par[p]), ast.Await))
+                ctx.check(okuse, 'R5', cons, f'`{pf.nsrc(p) if p is not None else pf.nsrc(n)}` uses the cache other than through `await ....lookup(k)`: internal maps are '
+                          f'read/written without the expiry, capacity and single-flight logic', m.path, n.lineno)
+    return configs
+
+
+def _class_side(ctx: Ctx, m: pf.Module) -> None:
+    cls = m.cls(CLS)
+    v = _view(ctx, m)
+    ctx.unit('helpers_inlined_into_lookup', len(v.il.inlined))
+    ctx.unit('task_bodies', len(v.bodies))
+    _r1_maps(ctx, m, cls)
+    _r1_put_callers(ctx, v)
+    _r1_capacity(ctx, v)
+    xinfo = _r2_fresh(ctx, v)
+    _r2_provenance(ctx, v, xinfo)
+    _r3_single_flight(ctx, v)
+    _r4_shield(ctx, v)
+    if v.deferred:
+        raise AnalysisError(v.deferred[0])
 
 
 def run(ctx: Ctx) -> None:
-    ctx.explanation = ('Must-pass-through / dominance on the CFG of lookup with await-atomicity, truth tables of the capacity and expiry comparisons, agreement of the '
-                       'three maps in _put/_remove, registration/deregistration analysis of the in-flight map including cancellation exits, and a closure over '
-                       'every await of a shared task.')
+    ctx.explanation = ('Must-pass-through / dominance on the CFG of lookup (and of the coroutine it registers as the shared task) with await-atomicity, truth tables of the '
+                       'capacity and expiry comparisons, agreement of the three maps in _put/_remove, reaching-definition provenance of returned and stored values, '
+                       'registration/deregistration ownership of the in-flight map including cancellation exits and never-started tasks, a closure over every await of a '
+                       'shared task, constant propagation of constructor options from the session and JAR sites.')
     ctx.rule('R1', 'every insertion is followed atomically by capacity test + eviction; _put/_remove keep the three maps in step (and in key-function order); '
-                   'no other mutation', 13)
+                   'no other mutation; per-instance maps', 19)
     ctx.rule('R2', 'expiry = monotonic_ns + lifetime_ns; a cached value is returned only after, atomically, its expiry was compared with the same clock '
-                   'and expired entries removed', 6)
-    ctx.rule('R3', 'single flight: registration atomic after the in-flight test, one load call site, waiters start no load, registration removed on every exit', 6)
+                   'and expired entries removed; every returned / stored value is the awaited load result', 9)
+    ctx.rule('R3', 'single flight: registration atomic after the in-flight test, one load call site, waiters start no load, registration removed on every exit '
+                   'of the registering frame (or by a done-callback)', 5)
     ctx.rule('R4', 'every await of a task read from the shared _futures map is shielded', 1)
-    ctx.rule('R5', 'gear/auth.py builds the cache with positive constant lifetime/capacity and only calls lookup', 3)
-    ctx.assume('asyncio switches only at await; cancelling a coroutine that awaits a Task cancels that Task unless the await goes through asyncio.shield')
+    ctx.rule('R5', 'gear/auth.py and the JAR cache site build the cache with positive constant lifetime/capacity; auth.py only calls lookup', 5)
+    ctx.assume('asyncio switches only at await; cancelling a coroutine that awaits a Task cancels that Task unless the await goes through asyncio.shield; '
+               'a Task cancelled before its first step never executes its body')
     ctx.assume('shutdown() is outside the property; the loader coroutine does not touch the cache')
     m = pf.load(F)
-    cls = m.cls(CLS)
-    ctx.unit('files', 2)
-    # lookup is analysed with its same-class helpers inlined; the primitives the rules speak about stay calls
-    mi, il = inline.inline_methods(m, CLS, 'lookup', exclude=PRIMS)
-    clsi = mi.cls(CLS)
-    ctx.unit('helpers_inlined_into_lookup', len(il.inlined))
-    _r1_maps(ctx, m, cls)
-    _r1_put_callers(ctx, m, cls, il)
-    _r1_capacity(ctx, mi, clsi)
-    _r2_fresh(ctx, mi, clsi)
-    _r3_single_flight(ctx, mi, clsi, m, cls, il)
-    _r4_shield(ctx, mi, clsi, m, il)
-    _r5_auth(ctx)
+    ctx.unit('files', 3)
+    configs = _r5_sites(ctx, m)
+    seen: List[Dict[str, Any]] = []
+    for label, conf in configs:
+        key = {a: c.value for a, c in conf.items()}
+        if key in seen:
+            continue
+        first = not seen
+        seen.append(key)
+        ms = cf.specialise(m, CLS, conf)
+        _class_side(ctx if first else _Sfx(ctx, f' [{label}]'), ms)  # type: ignore[arg-type]
+    ctx.unit('option_configurations', len(seen))
     ctx.unit('functions', 8)
